@@ -226,6 +226,86 @@ func preprocScenario(prop string, accept map[string]bool) mc.Scenario {
 	}
 }
 
+// Ptr(Preprocess(fn, S)): the pointer is decided on the raw input (present: allocate), everything below it on
+// what fn returned — so the pointee must hold exactly what S leaves when it parses fn's output, with S's issues.
+func preprocBehindPtrScenario(prop string, accept map[string]bool) mc.Scenario {
+	cases := preCases()
+	return func(x *mc.X) *mc.Outcome {
+		zh.Reset()
+		zh.Install(x, zh.PoolLIFO, zh.OrderSorted)
+		var plain []preWrapCase
+		for _, c := range cases {
+			if c.dtype.Kind() != reflect.Pointer {
+				plain = append(plain, c)
+			}
+		}
+		c := plain[x.Choose(len(plain), "wrapped schema")]
+		mod := x.Choose(3, "modifier")
+		oi := x.Choose(len(c.outputs), "output")
+		preBlankIdx = oi
+		out := c.outputs[oi]
+		run := func(s z.ZogSchema, data any, dt reflect.Type) (iss []string, dest string, pmsg string) {
+			defer func() {
+				if r := recover(); r != nil {
+					pmsg = firstLine(fmt.Sprint(r))
+				}
+			}()
+			st := reflect.StructOf([]reflect.StructField{{Name: "V", Type: dt}})
+			d := reflect.New(st)
+			m := z.Struct(z.Schema{"v": s}).Parse(map[string]any{"v": data}, d.Interface())
+			for _, k := range sortedKeys(m) {
+				if k != "$first" {
+					for _, is := range m[k] {
+						iss = append(iss, k+"|"+is.Code+"|"+is.Message)
+					}
+				}
+			}
+			v := d.Elem().Field(0)
+			if v.Kind() == reflect.Pointer {
+				if v.IsNil() {
+					return iss, "<nil pointer>", ""
+				}
+				v = v.Elem()
+			}
+			return iss, canonNoTypes(v), ""
+		}
+		gotI, gotD, gotP := run(z.Ptr(c.wrap(c.build(mod), c.outputs)), fmt.Sprintf("k%d", oi), reflect.PointerTo(c.dtype))
+		wantI, wantD, wantP := run(c.build(mod), out, c.dtype)
+		zh.Reset()
+		o := &mc.Outcome{Traces: 2, Nontrivial: len(wantI) == 0, Sig: fmt.Sprintf("preproc-ptr|%s|%d|%d|%v", c.name, mod, oi, wantI)}
+		o.Sample = map[string]any{"schema": "Ptr(Preprocess(" + c.name + "))", "modifier": mod, "output": canonNoTypes(reflect.ValueOf(out)), "issues": wantI, "pointee": wantD}
+		class := ""
+		switch {
+		case gotP != wantP:
+			class = "panic"
+		case len(gotI) == 0 && len(wantI) > 0:
+			class = "clean-despite-violation"
+		case !eqStrings(gotI, wantI):
+			class = "issues"
+		case gotD != wantD:
+			class = "destination"
+		}
+		if class != "" && accept[class] {
+			x.Note("Ptr(Preprocess(%s)) as a field, wrapped node modifier %d (0 plain, 1 Required, 2 Default), raw input k%d (present), the function returned %s", c.name, mod, oi, canonNoTypes(reflect.ValueOf(out)))
+			o.Viol = append(o.Viol, &mc.Violation{
+				Key:      fmt.Sprintf("%s:preprocess-behind-pointer:%s:%s", prop, class, strings.SplitN(c.name, ",", 2)[0]),
+				What:     "below Ptr(Preprocess(fn, S)) the pointee is not what S leaves when it parses the value fn returned",
+				Expected: fmt.Sprintf("panic=%q issues=%v pointee=%s", wantP, wantI, wantD),
+				Observed: fmt.Sprintf("panic=%q issues=%v pointee=%s", gotP, gotI, gotD),
+			})
+		}
+		return o
+	}
+}
+
+func preprocPtrItem(prop string, accept ...string) Item {
+	acc := map[string]bool{}
+	for _, a := range accept {
+		acc[a] = true
+	}
+	return Item{Name: "preprocess-behind-pointer", MaxDevs: -1, Run: preprocBehindPtrScenario(prop, acc)}
+}
+
 func preprocItem(prop string, accept ...string) Item {
 	acc := map[string]bool{}
 	for _, a := range accept {
